@@ -63,6 +63,8 @@ func (eng *Engine) VerifyFunction(fn *ssa.Function, con *Contract) (fx *FuncExec
 		fx.addFact(reach, ts.Lt(ts.Int(0), ref))
 		st.vals[fv] = VPtr{"fv:" + shortFuncName(fn.Parent()) + "." + fv.Name(), ref, et}
 	}
+	// references below 100000 are reserved for objects built by package initialisers (static table)
+	fx.addFact(ts.True(), ts.mk("<=", SBool, ts.Int(100000), fx.heapGet(st, allocKey, SInt)))
 	fx.entry = st.Clone()
 	fx.entries[fn] = fx.entry
 	env := func(s *State) *cenv {
@@ -155,6 +157,24 @@ func (eng *Engine) VerifyFunction(fn *ssa.Function, con *Contract) (fx *FuncExec
 				e.reach = r.reach
 				fx.bindResults(e, fn, r.vals)
 				sites = append(sites, site{fmt.Sprintf("|ret%d", i), r.reach, e})
+			}
+		}
+		// preconditions of callees and safety obligations inside the body are split by the same cases,
+		// adaptively: the whole obligation is tried first
+		if len(cases) > 1 {
+			for _, o := range fx.obls {
+				if o.Status != "" || o.ExpectSat || len(o.Sub) > 0 || (o.Kind != "pre" && o.Kind != "safe" && o.Kind != "ovf") {
+					continue
+				}
+				for _, cs := range cases {
+					g := ts.Implies(cs.cond, o.Goal)
+					sub := &Obligation{Name: o.Name + "|case" + cs.name, Kind: o.Kind, Func: o.Func, Label: o.Label + "|case" + cs.name,
+						Goal: g, NFacts: o.NFacts, fx: fx, Src: o.Src, Props: o.Props}
+					if g.isTrue() {
+						sub.Status, sub.Solver = "proved", "simplifier"
+					}
+					o.Sub = append(o.Sub, sub)
+				}
 			}
 		}
 		provedAt := make([][]*Term, len(sites))
@@ -321,6 +341,15 @@ func (fx *FuncExec) evalModifies(con *Contract, env *cenv) (locs []location, err
 				n = s.cap
 			}
 			locs = append(locs, location{key: elemHeapKey(s.elem), ref: s.arr, elems: true, off: s.off, n: n})
+		case ex.Kind == "call" && ex.Args[0].Kind == "ident" && ex.Args[0].Name == "family":
+			// family(T): any field of any object of struct type T (and the arrays those fields point to are NOT included)
+			if ex.Args[1].Kind != "ident" {
+				cfail("family needs a type name")
+			}
+			locs = append(locs, location{key: "family:" + ex.Args[1].Name, typ: fx.eng.namedType(ex.Args[1].Name)})
+		case ex.Kind == "call" && ex.Args[0].Kind == "ident" && ex.Args[0].Name == "anybytes":
+			// anybytes(): contents of any byte array (coarse frame for functions that recycle buffers)
+			locs = append(locs, location{key: "anyelems:elem:byte"})
 		case ex.Kind == "unary" && ex.Op == "*":
 			v := env.eval(ex.Args[0])
 			p, ok := v.(VPtr)
@@ -410,7 +439,19 @@ func (fx *FuncExec) frameObligations(fn *ssa.Function, con *Contract, reach *Ter
 	}
 	allowed := map[string][]*Term{} // field array key -> refs that may change
 	wins := map[string][]window{}   // element heap key -> writable windows
+	exempt := map[string]bool{}
 	for _, l := range locs {
+		if strings.HasPrefix(l.key, "family:") {
+			f, _ := fx.leafKeys(ptrKey(l.typ), l.typ, ts.Int(0))
+			for _, k := range f {
+				exempt[k.key] = true
+			}
+			continue
+		}
+		if strings.HasPrefix(l.key, "anyelems:") {
+			exempt[strings.TrimPrefix(l.key, "anyelems:")] = true
+			continue
+		}
 		if l.elems {
 			wins[l.key] = append(wins[l.key], window{l.ref, l.off, l.n})
 			continue
@@ -436,7 +477,7 @@ func (fx *FuncExec) frameObligations(fn *ssa.Function, con *Contract, reach *Ter
 		cur := exit.heap[k]
 		srt := fx.eng.heapSorts[k]
 		h0 := ts.Var("H0!"+k, srt)
-		if cur == h0 {
+		if cur == h0 || exempt[k] {
 			continue
 		}
 		r := ts.Bound("r", SInt)
@@ -479,6 +520,13 @@ func (fx *FuncExec) applyContract(st *State, reach *Term, callee *ssa.Function, 
 		return &cenv{fx: fx, fn: callee, st: s, old: pre, con: con, binds: map[string]Value{}, params: params, reach: reach}
 	}
 	fx.callCount[con.Func]++
+	// ghost call counter, readable in contracts as called(<function>)
+	gk := "calls:" + normFuncName(con.Func)
+	cnt := ts.Int(0)
+	if v, ok := st.ghost[gk].(VInt); ok {
+		cnt = v.t
+	}
+	st.ghost[gk] = VInt{ts.Add(cnt, ts.Int(1))}
 	for _, c := range con.Requires {
 		t, err := fx.evalClause(c, mk(st))
 		if err != nil {
@@ -495,6 +543,18 @@ func (fx *FuncExec) applyContract(st *State, reach *Term, callee *ssa.Function, 
 		fx.addObl("shape", "modifies:"+con.Func, err.Error(), reach, ts.False())
 	}
 	for _, l := range locs {
+		if strings.HasPrefix(l.key, "family:") {
+			f, _ := fx.leafKeys(ptrKey(l.typ), l.typ, ts.Int(0))
+			for _, k := range f {
+				fx.heapSet(st, k.key, ts.Fresh("mod."+k.key, k.sort))
+			}
+			continue
+		}
+		if strings.HasPrefix(l.key, "anyelems:") {
+			hk := strings.TrimPrefix(l.key, "anyelems:")
+			fx.heapSet(st, hk, ts.Fresh("mod."+hk, SArr2))
+			continue
+		}
 		if l.elems {
 			fx.havocWindow(st, reach, l.key, l.ref, l.off, l.n)
 			continue
@@ -639,7 +699,14 @@ func (fx *FuncExec) pooledObject(st *State, reach *Term, pt types.Type) Value {
 		f, e = fx.leafKeys(ptrKey(p.Elem()), p.Elem(), ref)
 	}
 	for _, k := range f {
-		fx.heapSet(st, k.key, ts.Store(fx.heapGet(st, k.key, k.sort), ref, ts.Fresh("pool."+k.key, elemSort(k.sort))))
+		var v *Term
+		if strings.HasSuffix(k.key, "#arr") {
+			// buffers of a recycled object are not shared with any live object: model them as new arrays
+			v = fx.alloc(st)
+		} else {
+			v = ts.Fresh("pool."+k.key, elemSort(k.sort))
+		}
+		fx.heapSet(st, k.key, ts.Store(fx.heapGet(st, k.key, k.sort), ref, v))
 	}
 	for _, k := range e {
 		h := fx.heapGet(st, k.heap, SArr2)
@@ -733,4 +800,8 @@ func (fx *FuncExec) specPrelude() string {
 		}
 	}
 	return sb.String()
+}
+
+func normFuncName(s string) string {
+	return strings.NewReplacer("(", "", ")", "", "*", "", " ", "").Replace(s)
 }
